@@ -261,6 +261,11 @@ func VerifC17Branch() {
 	}
 	before := len(w.events)
 	w.failAt = -1
+	// the phase-two command itself may fail in the database
+	p2fails := vrt.Bool("phase2.command.fails")
+	if p2fails {
+		w.failAt = w.cmds
+	}
 	br := rm.BranchResource{BranchType: branch.BranchTypeXA, Xid: xid, BranchId: int64(branchID), ResourceId: "res"}
 	var st branch.BranchStatus
 	var err2 error
@@ -270,6 +275,21 @@ func VerifC17Branch() {
 		st, err2 = m2.BranchRollback(ctx, br)
 	}
 	vrt.Reach("xa/phase-two-done")
+	vrt.Assert(w.legal(), "xa/phase-two-commands-follow-the-xa-state-machine")
+	if p2fails {
+		vrt.Reach("xa/phase-two-command-failed")
+		// a prepared branch gets its decision or nothing: a failed COMMIT is not followed by a
+		// ROLLBACK (nor the reverse), and the failure is not answered as done
+		xa := 0
+		for _, e := range w.events[before:] {
+			if e.conn >= 0 && strings.HasPrefix(e.text, "XA ") {
+				xa++
+			}
+		}
+		vrt.Assert(xa == 1, "xa/failed-phase-two-command-is-the-only-one")
+		vrt.Assert(st != branch.BranchStatusPhasetwoCommitted && st != branch.BranchStatusPhasetwoRollbacked, "xa/failed-phase-two-is-not-answered-done")
+		return
+	}
 	vrt.Assert(err2 == nil, "xa/phase-two-ok")
 	cmds := w.events[before:]
 	vrt.Assert(len(cmds) == 1, "xa/phase-two-exactly-one-command")
